@@ -152,6 +152,17 @@ def ev_index(case, rec):
     missing = [r for r in rules if repr(r) not in body and ('"%s"' % r) not in body]
     if missing or len(rules) < 3:
         rec.fail('the index route does not list every endpoint', site='api:index:list', observed=body, expected=rules, case=case)
+    # ... and keeps doing so: again after other traffic, from a second client, several times
+    for i in range(4):
+        c.get('/vincinv', query_string={'lat1': '-37.5', 'lon1': '144.25', 'lat2': '-37.3', 'lon2': '143.5'})
+        cl = app.test_client() if i % 2 else c
+        again = cl.get('/')
+        rec.transitions += 2
+        b2 = again.data.decode()
+        if again.status_code != 200 or [r for r in rules if repr(r) not in b2 and ('"%s"' % r) not in b2]:
+            rec.fail('the index route stops listing every endpoint after the first request', site='api:index:repeat', observed=b2,
+                     expected=rules, case=case, coords={'request': i + 2})
+            break
     # every listed route must be served
     for r in rules:
         rr = c.get(r, query_string={'lat1': '0', 'lon1': '0', 'lat2': '1', 'lon2': '1', 'azimuth1to2': '1', 'ell_dist': '1'})
